@@ -20,10 +20,13 @@ namespace cds_verif { namespace atomics {
     using std::memory_order_seq_cst;
 
     namespace detail {
+        // "did this write change the value": values are compared, except pointers - whether two pointers written one after the other are
+        // equal depends on whether the allocator reused an address, i.e. on the history of the worker process, and the answer decides
+        // the cost of other threads' yields (the shape of the schedule tree). A pointer write always counts as a change.
         template <typename T>
         inline bool differs( T const& a, T const& b ) noexcept
         {
-            return std::memcmp( &a, &b, sizeof( T )) != 0;
+            return std::is_pointer<T>::value || std::memcmp( &a, &b, sizeof( T )) != 0;
         }
 
         template <typename T>
